@@ -275,6 +275,23 @@ func checkC12(c *Ctx, w *World) {
 	c.floor("C12.cond:wait", len(waits), 1)
 	for _, wt := range waits {
 		imp, wit := rcs.Implies(rcs.Reach(wt), rcs.And(rcs.Atom("noErr"), rcs.Atom("noStream")))
+		// no lost wake-up: the predicate is tested and Wait is entered in ONE critical section (cond.Wait releases the lock
+		// atomically with parking; a release in between lets SendMsg store + Broadcast before the waiter is parked)
+		for _, l := range loopsOf(recv) {
+			if !l.Blocks[wt.Block()] {
+				continue
+			}
+			for _, in := range l.Header.Instrs {
+				u, isU := in.(*ssa.UnOp)
+				if !isU {
+					continue
+				}
+				if f, _, ok := loadedField(u); ok && (f == "gcpClientStream.initStreamErr" || f == "gcpClientStream.ClientStream") {
+					c.check(sameHoldOf(pl.lf, "gcpClientStream.Mutex", u, wt), "C12.cond", "RecvMsg: predicate test and Wait in one critical section ("+lastDot(f)+")", p.ipos(wt),
+						"the stream mutex is not released between the test of the predicate and cond.Wait()", "the stream mutex is released between the predicate test and cond.Wait(): a SendMsg that stores the stream and broadcasts in that gap is missed and RecvMsg blocks although the stream exists")
+				}
+			}
+		}
 		c.check(imp && inLoop(wt), "C12.cond", "RecvMsg: wait inside a predicate loop", p.ipos(wt), "Wait is reached only when neither a stream nor a creation error exists, and is re-tested in a loop (spurious wake-ups are harmless)", "RecvMsg waits outside a loop over the predicate (if instead of for), or with the wrong predicate: "+wit)
 	}
 	okRecv := true
